@@ -21,12 +21,12 @@ RULE = ("cases = (literal, position): literals of length 0..40 over the clean al
         "(column DEFAULT, column COMMENT, table COMMENT hql, table COMMENT = snowflake, inline CHECK comparand, named table CHECK, "
         "CREATE TYPE enum value, mysql ENUM column value, LOCATION, TBLPROPERTIES value, schema COMMENT, ALTER ADD DEFAULT FOR); "
         "numeric defaults of 1..19 digits with leading zeros. Non-trivial = every (literal, position) pair; distinct = distinct pair.")
-RULE += (" Added after seeded defects: the respacing known finding is classified by a frozen executable model of the pinned substitutions (anything else on such a literal is a violation), more parenthesis literals, a backslash-escaped quote class (verbatim at the two positions that translate the placeholder back, exact-model known finding elsewhere); words that are or merely contain a grammar keyword (FOR, forever, platform ... over every keyword); BigQuery column/table OPTIONS(description=...) as two more positions; the same texts as double-quoted literals (with ' # ', ' -- ' inside) in every position that reads them; Snowflake string-valued table options (PATTERN, CATALOG, TABLE_FORMAT, FILE_FORMAT TYPE / NULL_IF members) as five more positions.")
+RULE += (" Added after seeded defects: the respacing known finding is classified by a frozen executable model of the pinned substitutions (anything else on such a literal is a violation), more parenthesis literals, a backslash-escaped quote class (verbatim at the two positions that translate the placeholder back, exact-model known finding elsewhere); words that are or merely contain a grammar keyword (FOR, forever, platform ... over every keyword); BigQuery column/table OPTIONS(description=...) as two more positions; the same texts as double-quoted literals (with ' # ', ' -- ' inside) in every position that reads them; Snowflake string-valued table options (PATTERN, CATALOG, TABLE_FORMAT, FILE_FORMAT TYPE / NULL_IF members) as five more positions; words with '::', '$$' and '; drop ...'; the mode-independent positions are also read in a rotating other output mode.")
 ASSUMPTIONS = ["no literal contains an unpaired quote or a backslash", "a literal is placed on one line (no TAB/newline directly before it: C05 owns that)"]
 MIN_EVENTS = {"statements": 100, "run_return": 100}
 
 CLEAN = "abcdefghijklmnopqrstuvwxyzABCDEFGHIJKLMNOPQRSTUVWXYZ0123456789 _-.:;%$!?/#*&|@~+<>[]{}\""
-WORDS = ["N", "Y/N", "TYPE N", "E", "X", "B", "U&", "R", "say \"hi\" -- ok", "15\" -- diagonal", "\"quoted\" word", "CREATE", "table", "not null", "--", "select", "Primary Key", "''", "x", "a;b", "DROP TABLE t;", "NULL", "default", "-- c", "check", "key", "in", "As"]
+WORDS = ["fe80::1", "app::cache key", "a::b", "::", "queued; drop when done", "open; Create ticket first", "v2; alter nothing here", "x;CREATE y", "paid in $$", "$$", "N", "Y/N", "TYPE N", "E", "X", "B", "U&", "R", "say \"hi\" -- ok", "15\" -- diagonal", "\"quoted\" word", "CREATE", "table", "not null", "--", "select", "Primary Key", "''", "x", "a;b", "DROP TABLE t;", "NULL", "default", "-- c", "check", "key", "in", "As"]
 BAD_FEATURES = {
     "comma": [", ", ",", " ,"], "lpar": ["(", " (", "( ", "f(x", "(1"], "rpar": [")", " )", ")x", "1)", ":-)", ") "], "eq": ["=", "a=b", " = "], "tab": ["\t"],
     "nonascii": ["ï", "é", "日本", "ß", "Ж"], "blockopen": ["/*"], "blockclose": ["*/"],
@@ -79,6 +79,7 @@ POS["sf_file_format_type"] = ("CREATE TABLE t (\n  a int\n) STAGE_FILE_FORMAT = 
 POS["sf_null_if"] = ("CREATE TABLE t (\n  a int\n) FILE_FORMAT = (TYPE = CSV NULL_IF = ('NA', {L}));", (0, "table_properties", "file_format", "NULL_IF", 1), "snowflake", None)
 # double-quoted literals (BigQuery / MySQL style) are read as literals in every position but these three (calibrated on the pinned tree)
 NO_DOUBLE_QUOTED = {"colcomment", "schemacomment", "tabcomment_hql"}
+MODE_FREE_POSITIONS = {"default", "colcomment", "check", "tcheck", "enumtype", "schemacomment", "alterdefault"}
 EXTRA_PATHS = {"alterdefault": [(0, "alter", "defaults", 0, "value")]}
 _base = {}
 
@@ -207,6 +208,16 @@ def token_witness(ddl, mode, lit):
 
 def check_case(ctx, case):
     ctx.evaluated()
+    if case.get("gen") == "word_mode":
+        tmpl, path, mode, prefix = POS[case["position"]]
+        rm = parse(tmpl.format(L=case["literal"]) + "\n", None, output_mode=case["mode"])
+        try:
+            gm = _get(rm[1], *path) if rm[0] == "ok" else "<%s>" % rm[1]
+        except (KeyError, IndexError, TypeError):
+            gm = "<position missing>"
+        if gm != (prefix or "") + case["literal"]:
+            ctx.violation("literal_changed_in_mode:" + case["position"], case, {"mode": case["mode"], "expected": (prefix or "") + case["literal"], "observed": short(gm, 200)})
+        return
     lit, pos, feat = case["literal"], case["position"], case.get("feature")
     tmpl, path, mode, prefix = POS[pos]
     ddl = tmpl.format(L=lit) + "\n"
@@ -241,6 +252,20 @@ def check_case(ctx, case):
         ctx.violation("literal_changed:" + ("numeric" if case.get("numeric") else pos), dict(case, ddl=ddl),
                       {"expected": exp, "observed": got, "tokens": token_witness(ddl, mode, lit)}, kf=k)
         return
+    # the literal is the same in every output mode (positions whose place in the result does not depend on the mode)
+    if pos in MODE_FREE_POSITIONS and not case.get("numeric") and not feat:
+        n = ctx.obs["mode_rotations"] = ctx.obs["mode_rotations"] + 1
+        from vf.run import MODES
+        m2 = MODES[n % len(MODES)]
+        if m2 != mode:
+            rm = parse(ddl, None, output_mode=m2)
+            ctx.evaluated()
+            try:
+                gm = _get(rm[1], *path) if rm[0] == "ok" else "<%s>" % rm[1]
+            except (KeyError, IndexError, TypeError):
+                gm = "<position missing>"
+            if gm != exp:
+                ctx.violation("literal_changed_in_mode:" + pos, dict(case, ddl=ddl, mode=m2), {"mode": m2, "expected": exp, "observed": short(gm, 200)})
     # differential guard: nothing but the literal's own position may depend on the literal's content
     if not case.get("numeric"):
         b = base_result(pos)
@@ -275,6 +300,26 @@ def run_shard(ctx):
             i += 1
             if ctx.mine(i):
                 check_case(ctx, {"gen": "hostile", "literal": lit, "position": pos})
+    # every special word as a whole literal, at every mode-independent position, in every output mode
+    from vf.run import MODES
+    for lit in ["'" + w.replace("/*", "/ *").replace("*/", "* /") + "'" for w in WORDS if "'" not in w]:
+        for pos in sorted(MODE_FREE_POSITIONS):
+            for m2 in MODES:
+                i += 1
+                if not ctx.mine(i):
+                    continue
+                tmpl, path, mode, prefix = POS[pos]
+                exp = (prefix or "") + lit
+                rm = parse(tmpl.format(L=lit) + "\n", None, output_mode=m2)
+                ctx.evaluated()
+                ctx.obs["word_x_position_x_mode"] += 1
+                try:
+                    gm = _get(rm[1], *path) if rm[0] == "ok" else "<%s>" % rm[1]
+                except (KeyError, IndexError, TypeError):
+                    gm = "<position missing>"
+                if gm != exp:
+                    ctx.violation("literal_changed_in_mode:" + pos, {"gen": "word_mode", "literal": lit, "position": pos, "mode": m2, "ddl": tmpl.format(L=lit)},
+                                  {"mode": m2, "expected": exp, "observed": short(gm, 200)})
     for j in range(ctx.budget(2500, 90000)):
         lit = gen_clean(rng)
         check_case(ctx, {"gen": "clean", "literal": lit, "position": rng.choice(positions)})
